@@ -32,6 +32,10 @@ def run(tier):
     from ..contracts import feas as FE
     for rel, q, c in FE.ITEMS:
         reps.append(deductive.verify_function(rel, q, c, hooks=FE.hooks_for(c)))
+    from ..contracts import lossnd as ND
+    for rel, q, c, tag in ND.ITEMS:
+        if tag == 'C18':
+            reps.append(deductive.verify_function(rel, q, c, hooks=ND.hooks(), prefix='%s::%s[n-dimensional, L2]' % (rel, q)))
     from ..contracts import exactmsg as XM
     for rel2, q2, c2, sites, tag in XM.ITEMS:
         if tag == 'C18':
